@@ -125,6 +125,38 @@ theorem C13_validate_data_masked (nodes : List α) (values : List L) (m : Option
   · rintro m' rfl p; exact mem_nodesWithId nodes values m' nl hsel p
   · rintro rfl; rw [nodesWithId_none] at hsel; cases hsel; rfl
 
+/-! ## integer arrays: the int64 cast -/
+
+def InInt64 (x : Int) : Prop := -(2 ^ 63) ≤ x ∧ x < 2 ^ 63
+instance (x : Int) : Decidable (InInt64 x) := by unfold InInt64; infer_instance
+
+theorem toInt64_of_inRange (x : Int) (h : InInt64 x) : toInt64 x = x := by
+  unfold toInt64; unfold InInt64 at h; omega
+
+/-- when node ids, tracklet ids and edge endpoints fit int64 the cast at the top of
+`validate_tracklets` is the identity, so all theorems above speak about the arrays as given -/
+theorem C13_int64_cast_identity (nodes labels : List Int) (edges : List (Int × Int))
+    (hn : ∀ x ∈ nodes, InInt64 x) (hl : ∀ x ∈ labels, InInt64 x)
+    (he : ∀ e ∈ edges, InInt64 e.1 ∧ InInt64 e.2) :
+    trackletErrorsInt64 nodes labels edges = trackletErrors (nodes.zip labels) edges := by
+  unfold trackletErrorsInt64
+  have h1 : nodes.map toInt64 = nodes := by
+    rw [List.map_congr_left (g := id) (fun x hx => toInt64_of_inRange x (hn x hx)), List.map_id]
+  have h2 : labels.map toInt64 = labels := by
+    rw [List.map_congr_left (g := id) (fun x hx => toInt64_of_inRange x (hl x hx)), List.map_id]
+  have h3 : edges.map (fun e => (toInt64 e.1, toInt64 e.2)) = edges := by
+    rw [List.map_congr_left (g := id) (fun e he' => by
+      rw [toInt64_of_inRange _ (he e he').1, toInt64_of_inRange _ (he e he').2]; rfl), List.map_id]
+  rw [h1, h2, h3]
+
+/-- **known finding `C13:uint64-id-wrapped-in-message`** (not repaired): for uint64 tracklet ids
+≥ 2^63 the verdict is right but the message names the wrapped id — here tracklet
+9223372036854775809 (= 2^63 + 1, disconnected) is reported as −9223372036854775807. -/
+theorem C13_counterexample_uint64_message :
+    (trackletErrorsInt64 [1, 2, 3] [2 ^ 63 + 1, 2 ^ 63 + 1, 2 ^ 63 + 1] [(1, 2)]).map (·.1)
+      = [-(2 ^ 63) + 1] ∧ ¬ InInt64 (2 ^ 63 + 1) := by
+  decide
+
 /-! ## Non-vacuity and the pre-repair failing inputs (evaluations of the model, i.e. tests) -/
 -- 1→2→3, 3→4, 3→5 (division at 3): tracklets {1,2,3}, {4}, {5}
 example : validateTracklets [((1:Nat),(10:Nat)),(2,10),(3,10),(4,20),(5,30)] [(1,2),(2,3),(3,4),(3,5)] = true := by
